@@ -74,7 +74,7 @@ def run(tier, seed):
                 order = list(others)
                 rnd.shuffle(order)
                 jobs.append(dict(with_functions=False, calls=[[via, h] for h in order] + [last], last=last, construct_first=rnd.random() < 0.5))
-            for h in rnd.sample(others, min(len(others), 2 if tier == 'quick' else 8)):
+            for h in rnd.sample(others, min(len(others), 2 if tier == 'quick' else 4)):
                 jobs.append(dict(with_functions=False, calls=[[rnd.choice(['compile', api]), h], last], last=last, construct_first=rnd.random() < 0.5))
     # pairs of texts of which one declares what the other only mentions: each observed after the other, through every call
     for a, b in PAIRS:
